@@ -22,6 +22,7 @@ type vJoinEnv struct {
 	cancel   context.CancelFunc
 	stopped  bool
 	frozen   []int // values of the unreleased slice at the moment of the stop
+	frozenSlice []int // that slice itself
 	ptr      int   // position in items up to which the delivered elements have been matched
 }
 
@@ -104,6 +105,7 @@ func vJoinSetup(timed bool, closeInput bool, sink bool) *vJoinEnv {
 		vWatch(s)
 		e.outs = append(e.outs, s)
 		e.lens = append(e.lens, len(s))
+		vAdvance() // real time passes between the discipline's own clock readings (e.g. while it was blocked on this send)
 		e.times = append(e.times, vNow())
 		for _, x := range s {
 			e.emitted = append(e.emitted, x)
@@ -188,7 +190,8 @@ func VerifC16_v1join_stop() {
 	signal := func() {
 		e.stopped = true
 		if e.awaiting && len(e.outs) > 0 {
-			for _, x := range e.outs[len(e.outs)-1] {
+			e.frozenSlice = e.outs[len(e.outs)-1]
+			for _, x := range e.frozenSlice {
 				e.frozen = append(e.frozen, x)
 			}
 		}
@@ -248,9 +251,8 @@ func VerifC16_v1join_stop() {
 	if e.awaiting {
 		// stopped before the release signal: the delivered slice must never be touched again
 		vAssert(vWatchHits() == 0, "C08: after Stop/cancel before the release signal the delivered slice is never touched again")
-		last := e.outs[len(e.outs)-1]
 		for i := range e.frozen {
-			vAssert(last[i] == e.frozen[i], "C08: the unreleased slice keeps its contents after Stop/cancel")
+			vAssert(i < len(e.frozenSlice) && e.frozenSlice[i] == e.frozen[i], "C08: the unreleased slice keeps its contents after Stop/cancel")
 		}
 	}
 }
